@@ -75,6 +75,8 @@ def scenarios(tier):
         out["refine-form-" + form] = {"api": "refine", "drops": DROPS5[:3], "kwargs": {}, "shift": 0.35, "form": form, "bulk": form not in ("generator",), "ks": [2, 3, 4, "auto"], "cap": None}
     # more candidates than a small chunk / batch size, a number no worker count divides
     out["refine-17"] = {"api": "refine", "many": [17, 1], "kwargs": {"least_squares_params": {"max_nfev": 4}}, "shift": 0.2, "bulk": True, "drops": [], "ks": [2, 3, 4, "auto"]}
+    # perturbed candidates placed EXACTLY on the main diagonal of a square box (equal angles to the first and the last cell)
+    out["refine-diagonal"] = {"api": "refine", "drops": [([7.0, 7.0], 3.1, 1.0), ([18.0, 18.0], 4.2, 1.0), ([29.0, 29.0], 2.8, 1.0)], "kwargs": {}, "shift": 0.0, "cls": "perturbed2d", "shape": [36, 36], "periodic": [False, False]}
     out["refine-none"] = {"api": "refine", "drops": [], "kwargs": {}, "shift": 0.0, "field_drops": DROPS5[:2]}
     out["refine-lsq"] = {"api": "refine", "drops": DROPS5[:n], "kwargs": {"vmin": None, "vmax": None, "adjust_values": True, "least_squares_params": {"max_nfev": 400}},
                          "shift": 0.3, "contrast": [1.0, 0.6, 1.5, 0.8, 1.2]}
@@ -110,10 +112,12 @@ def scenarios(tier):
     return out
 
 
-def _field(drops, affine=None, contrast=None, periodic=None, origin=None):
+def _field(drops, affine=None, contrast=None, periodic=None, origin=None, shape=None):
     from droplets import DiffuseDroplet, Emulsion
 
     grid = geom.make_grid(GRID2 if periodic is None else dict(GRID2, periodic=list(periodic)))
+    if shape is not None:
+        grid = geom.make_grid(dict(GRID2, shape=list(shape), periodic=list(periodic or GRID2["periodic"])))
     if origin is not None:
         grid = geom.make_grid(dict(GRID2, origin=list(origin)))
         drops = [([x + o for x, o in zip(c, origin)], R, w) for c, R, w in drops]
@@ -144,7 +148,7 @@ def build(sc):
         cands = [DiffuseDroplet(np.array(c, float) + sc["shift"], R * 0.95, w * 1.2) for c, R, w in truth]
         return field, cands
     if sc["api"] == "refine":
-        field = _field(sc.get("field_drops", sc["drops"]), sc.get("affine"), sc.get("contrast"), sc.get("periodic"))
+        field = _field(sc.get("field_drops", sc["drops"]), sc.get("affine"), sc.get("contrast"), sc.get("periodic"), shape=sc.get("shape"))
         if sc.get("noise"):
             idx = np.indices(field.grid.shape)
             field = field + sc["noise"] * ((((idx[0] * 3 + idx[1] * 4) * 37 + (idx[0] ** 2 + idx[1] ** 2) * 11) % 17) / 16.0 - 0.5)  # fixed lattice of values
@@ -155,6 +159,10 @@ def build(sc):
                 cands.append(SphericalDroplet(pos, R * 1.07))
             elif sc.get("cls") == "diffuse-nowidth":
                 cands.append(DiffuseDroplet(pos, R * 0.95))
+            elif sc.get("cls") == "perturbed2d":
+                from droplets.droplets import PerturbedDroplet2D
+
+                cands.append(PerturbedDroplet2D(pos, R * (0.93 + 0.04 * i), w * 1.3, [0.05, -0.03, 0.02, 0.0]))
             else:
                 cands.append(DiffuseDroplet(pos, R * (0.93 + 0.04 * i), w * 1.3))
         if sc.get("alias"):
